@@ -24,9 +24,11 @@ func RebaseRef(baseRef string, ref string) string {
 		return ref
 	}
 
-	parts := strings.Split(ref, "#")
+	// only the first '#' separates the document from the fragment: a JSON pointer may contain '#'
+	const docAndFragment = 2
+	parts := strings.SplitN(ref, "#", docAndFragment)
 
-	baseParts := strings.Split(baseRef, "#")
+	baseParts := strings.SplitN(baseRef, "#", docAndFragment)
 	baseURL, _ := url.Parse(baseParts[0])
 	if strings.HasPrefix(ref, "#") {
 		if baseURL.Host == "" {
